@@ -17,7 +17,7 @@
 //!
 //! node  = kind;id;key;parent;children;attrs;nss;name;data          (lists joined by '.')
 //!         parent = parent_node(); for an attribute (whose parent_node() is None by DOM Level 1)
-//!         the element that lists it when `specified()` says it has an owner element
+//!         its `owner_element()` (what the evaluator uses as the parent of an attribute node)
 //! name  = `!` (none) | `E` (error) | local/prefix/uri   (prefix, uri: `~` when None)
 //! data  = `E` (error) | `~` (computed from the children: element, document) | string
 //! value = `ns:i.j.k` (table indices; `z<kind>:<name>:<data>` for nodes whose id is 0)
@@ -101,11 +101,11 @@ impl Table {
             let mut v = vec![];
             for a in attrs.iter() {
                 let k = self.add(a.as_node());
-                // the element that lists a SPECIFIED attribute is its owner element (what the
-                // evaluator takes as the parent of the attribute node); a DTD-default attribute
-                // reports no owner (`specified()` is `owner_element().is_ok()`)
-                if xml_dom::Attr::specified(&a) {
-                    self.rows[k].parent = Some(i);
+                // what the evaluator takes as the parent of the attribute node: its owner element
+                // (looked up among the rows by id; it is the element being walked)
+                if let Some(owner) = a.owner_element() {
+                    let o = self.lookup(&owner.as_node());
+                    self.rows[k].parent = o;
                 }
                 v.push(k);
             }
